@@ -3,7 +3,7 @@ from props import _auto
 
 LEAN_MODULES = _auto.lean_modules("C06")
 VARIANTS = ['default']
-RULE = 'lengths {0,1,15,16,17,63,64,65,random} squared x key length x partitions of AAD/data across add_data/encrypt/encrypt_mut/decrypt/decrypt_mut; non-trivial = non-empty aad or data; distinct = distinct case lines'
+RULE = 'lengths {0,1,15,16,17,63,64,65,random} squared (every (aad class, data class) pair: thorough with both key lengths, quick with one key length fixed by the parity of the class indices and both for classes in {0,16}) x partitions of AAD/data across add_data/encrypt/encrypt_mut/decrypt/decrypt_mut, every partition in BOTH directions, one-shot functions and the one-shot object (aead.one) in both directions; non-trivial = non-empty aad or data; distinct = distinct case lines'
 TRUSTED = ["hand-written Lean models (lean/CxVerif/Impl, Spec) tied to the code by the correspondence run and by tables re-extracted from /repo/src"]
 ASSUMPTIONS = ['AAD and data lengths < 2^64; the Spec extends RFC 8439 beyond its 2^38-64 byte plaintext limit by letting the 32-bit block counter wrap as the code does — the RFC itself is silent there and the crate does not enforce the limit (observation, DESIGN 12)']
 gen = _auto.make_gen("C06")
